@@ -135,5 +135,26 @@ EXTRA3 = {
  "C19": " Note subclasses that are falsy when empty.",
  "C20": " One Mapping object in two slots; curve tables as tuple / array / numpy arrays; mappings naming controllers the target lacks.",
 }
+# round 10
+EXTRA4 = {
+ "C03": " Patterns resized after their cells existed and cleared; Samplers fed through load_chunk() or from files without instrument record, edited.",
+ "C04": " Loaded MetaModules are addressed through u_<label> aliases (unlabelled controllers in front of labelled ones).",
+ "C05": " Instruments in all older record layouts are sources; read-only helpers run between the saves.",
+ "C06": " Read-only helpers (play-order view, tabular views, printing) run between load and edit.",
+ "C07": " Modules whose owner was named at construction; falsy application Project subclasses.",
+ "C08": " Hubs of 17-48 links whose hub is a module of any type; loads through the reader classes.",
+ "C09": " Floats / Fractions / Decimals just outside a range are refused; handlers that correct the value they are told about.",
+ "C10": " An application-written module type with a unit-dependent controller; over-long multi-byte instrument names next to the record fields.",
+ "C11": " numpy scalars as option values.",
+ "C12": " Patterns given another size and cleared inside the operation sequences.",
+ "C13": " ... application types declaring controllers with library bounds (then narrowing their own ranges in place) and options excluding inherited ones.",
+ "C14": " The loader's keyword in duplicate / foreign attaches; += with the library's ModuleList.",
+ "C15": " numpy integers as values of exposed controllers.",
+ "C16": " Saves failing part-way through the instrument record, repaired and repeated; legacy instruments moved to the current layout and edited.",
+ "C17": " The class-level state (behaviours and other collections) of every module class and a bystander instance are compared before / after the type's workload; MultiCtl routing copies.",
+ "C18": " Lenient files carry other (also newer) version stamps.",
+ "C19": " Patterns made smaller after their notes existed; cells addressed from the end.",
+ "C20": " reflect() queries leave windows and directions as they were; every third project is a falsy application subclass.",
+}
 for _pid in CHECKS:
-    CHECKS[_pid]["text"] += EXTRA.get(_pid, "") + EXTRA2.get(_pid, "") + EXTRA3.get(_pid, "") + " A few shards of every run are replayed with DEBUG logging and under python -O, -W error and -bb."
+    CHECKS[_pid]["text"] += EXTRA.get(_pid, "") + EXTRA2.get(_pid, "") + EXTRA3.get(_pid, "") + EXTRA4.get(_pid, "") + " A few shards of every run are replayed with DEBUG logging and under python -O, -W error and -bb."
